@@ -29,8 +29,10 @@ func vProducesCfg(k int) []string {
 		return []string{"a/x", "a/J"}
 	case 3:
 		return []string{MIME_XML}
-	case 4:
+	case 4, 14:
 		return []string{MIME_JSON, MIME_XML}
+	case 13:
+		return []string{MIME_XML}
 	}
 	return []string{"u/u", "a/J"} // first entry has no registered writer
 }
@@ -103,7 +105,16 @@ func refRangeChoice(produces []string, media string) int {
 // mode 3: skeleton "<type>;<name>=<value>,<type>" with a symbolic parameter name (1 or 2 bytes) and value (exactly capN bytes)
 // mode 0: <=2 ranges, <=1 parameter each; 1: <=2 ranges, <=2 parameters; 2: built-in names with a symbolic tail
 func H_C05(prodCfg, mode, capN, part, nparts int) {
-	vRegister(prodCfg == 3 || prodCfg == 4)
+	vRegister(prodCfg == 3 || prodCfg == 4 || prodCfg == 13 || prodCfg == 14)
+	// 13, 14: a default response content type is configured (JSON resp. XML)
+	oldDefault := DefaultResponseMimeType
+	defer func() { DefaultResponseMimeType = oldDefault }()
+	if prodCfg == 13 {
+		DefaultResponseContentType(MIME_JSON)
+	}
+	if prodCfg == 14 {
+		DefaultResponseContentType(MIME_XML)
+	}
 	verifMapOrders(true)
 	produces := vProducesCfg(prodCfg)
 	maxParams := 1
@@ -180,6 +191,9 @@ func H_C05(prodCfg, mode, capN, part, nparts int) {
 		verifCover("marshal-error")
 		return
 	}
+	// recorded finding: a configured default response content type is used when the Accept header is unusable,
+	// whether or not the route produces it; the class covers exactly the answers equal to that default
+	verifKnown("default-content-type-overrides-produces", vAnd(DefaultResponseMimeType != "" && !vContains(produces, DefaultResponseMimeType), ct1 == DefaultResponseMimeType))
 	inProd := false
 	for _, p := range produces {
 		if vContains(vRegistered, p) {
@@ -192,6 +206,10 @@ func H_C05(prodCfg, mode, capN, part, nparts int) {
 	m1, q1, d1 := refParseRange(r1, maxParams)
 	has1 := ci != -1
 	def := vAnd(d0, vOr(!has1, d1))
+	if DefaultResponseMimeType != "" {
+		// with a configured default the statement does not say what an absent Accept header selects
+		def = vAnd(def, len(accept) != 0)
+	}
 	c0 := refRangeChoice(produces, m0)
 	c1 := vIte(has1, refRangeChoice(produces, m1), -1)
 	swap := vAnd(has1, q1 > q0)
